@@ -1,24 +1,36 @@
 #!/venv/bin/python
 """tools/check_patches.py — every seeded change and mutant must apply to /repo's current sources (scratch copy)
-and leave an importable package; prints the ones that do not."""
+and leave an importable package; prints the ones that do not (16 at a time)."""
 import glob, json, os, shutil, subprocess, sys, tempfile
-bad = 0
+from multiprocessing.pool import ThreadPool
+
 patches = sorted(glob.glob("/verif/mutants/*/*.patch"))
 for meta in sorted(glob.glob("/verif/seeded/*/meta.json")):
     if not json.load(open(meta)).get("obsolete"):
         patches.append(os.path.join(os.path.dirname(meta), "patch.diff"))
-for p in patches:
+
+
+def one(p):
     tmp = tempfile.mkdtemp(prefix="chkpatch-")
     try:
         shutil.copytree("/repo/src", os.path.join(tmp, "src"), ignore=shutil.ignore_patterns("__pycache__"))
-        r = subprocess.run(["patch", "-p1", "-s", "--no-backup-if-mismatch", "-i", p], cwd=tmp, capture_output=True, text=True)
+        r = subprocess.run(["patch", "-p1", "-s", "-f", "--no-backup-if-mismatch", "-i", p], cwd=tmp, capture_output=True, text=True, stdin=subprocess.DEVNULL, timeout=60)
         if r.returncode != 0:
-            print("DOES NOT APPLY", p); bad += 1; continue
+            return f"DOES NOT APPLY {p}"
         r = subprocess.run(["/venv/bin/python", "-c", "import physt, physt.plotting, physt.io, physt.compat.pandas, physt.compat.polars, physt.compat.dask, physt.compat.geant4"],
-                           env=dict(os.environ, PYTHONPATH=os.path.join(tmp, "src")), cwd=tmp, capture_output=True, text=True)
+                           env=dict(os.environ, PYTHONPATH=os.path.join(tmp, "src")), cwd=tmp, capture_output=True, text=True, stdin=subprocess.DEVNULL, timeout=300)
         if r.returncode != 0:
-            print("DOES NOT IMPORT", p, r.stderr.strip().splitlines()[-1][:120]); bad += 1
+            return f"DOES NOT IMPORT {p} " + r.stderr.strip().splitlines()[-1][:120]
+    except subprocess.TimeoutExpired:
+        return f"TIMED OUT {p}"
     finally:
         shutil.rmtree(tmp, ignore_errors=True)
-print(f"{len(patches)} patches checked, {bad} bad")
-sys.exit(1 if bad else 0)
+    return None
+
+
+with ThreadPool(16) as pool:
+    results = [r for r in pool.map(one, patches) if r]
+for r in results:
+    print(r)
+print(f"{len(patches)} patches checked, {len(results)} bad")
+sys.exit(1 if results else 0)
